@@ -185,6 +185,14 @@ func (p *LogPredicate) Validate() error {
 	if err := p.ValuePredicate.Validate(); err != nil {
 		return err
 	}
+	// A BytesEq predicate on a topic is mirrored into the node-side log filter (ToFilterQuery),
+	// which compares whole topics. For an argument of any other length no filter can be built
+	// and no topic of a log can ever be equal to it, so it is not a valid predicate.
+	if p.LogValueRef.IsTopic() && p.ValuePredicate.Op == BytesEq && len(p.ValuePredicate.ByteArgs[0]) != Word {
+		return fmt.Errorf(
+			"BytesEq argument for topic %d must be %d bytes long, got %d bytes",
+			p.LogValueRef.Offset, Word, len(p.ValuePredicate.ByteArgs[0]))
+	}
 	return nil
 }
 
